@@ -43,4 +43,6 @@ type Rec struct {
 	Second Second `parquet:"username"`
 	Alpha  Alpha  `parquet:"a"`
 	Gamma  *Gamma `parquet:"ab"`
+	// a column whose own name contains the path separator: one schema leaf "geo.lat", path_in_schema ["geo.lat"]
+	Lat *float64 `parquet:"geo.lat"`
 }
